@@ -46,6 +46,19 @@ class Only:
         return bool(ok)
 
 
+class Except(Only):
+    """The complement: everything of the borrowed rule but the obligations whose key contains a fragment."""
+
+    def rule(self, rule, doc, floor=1):
+        self._ctx.rule(rule, (self._doc or doc) + '  [without: %s]' % ', '.join(self._fragments),
+                       floor=max(1, floor - len(self._fragments)))
+
+    def ob(self, rule, key, ok, *a, **k):
+        if not any(f in key for f in self._fragments):
+            return self._ctx.ob(rule, key, ok, *a, **k)
+        return bool(ok)
+
+
 class Ctx:
     """One run of one property's rules over one model."""
 
